@@ -330,7 +330,7 @@ Print Assumptions c17_mutex_waiters_le_threads.
    word; on a word without waiters; hand-off addition on a locked word; Unlock of an unlocked word *)
 Example c17_dead_ends_exist :
   snd (mx_step_th {| xl := true; xk := false; xs := false; xn := 0 |} 0
-         (mx_mkth (XLCas 0 0 true false {| xl := true; xk := false; xs := false; xn := 0 |}) false [])) = XEPanic /\
+         (mx_mkth (XLLoad 0 0 true false) false [])) = XEPanic /\
   snd (mx_step_th {| xl := true; xk := false; xs := true; xn := 1 |} 0 (mx_mkth (XLWoke 0 0 true) false [])) = XEPanic /\
   snd (mx_step_th {| xl := false; xk := false; xs := true; xn := 0 |} 0 (mx_mkth (XLWoke 0 0 true) false [])) = XEPanic /\
   snd (mx_step_th {| xl := true; xk := false; xs := true; xn := 1 |} 0 (mx_mkth (XLHand true) false [])) = XEPanic /\
